@@ -221,6 +221,62 @@ func TestCheck(t *testing.T) {
 		}
 	}
 
+	// slow consumer: the application pauses longer than MaxWait between reads while the Reader's queue holds
+	// fewer messages than one fetch response (the partition reader then sits on a full queue past the deadline of
+	// its batch)
+	s.Begin("reader-slow-consumer")
+	for _, l := range ls {
+		for _, start := range []int64{kafka.FirstOffset, 2} {
+			for _, pattern := range []string{"after-first", "after-every"} {
+				for _, fv := range []int16{2, 10} {
+					if strings.HasPrefix(l.name, "v2-") && fv == 2 {
+						continue
+					}
+					l, start, pattern, fv := l, start, pattern, fv
+					id := fmt.Sprintf("%s fetch-v%d start=%d pause=%s", l.name, fv, start, pattern)
+					s.Case(id, id, func() (string, *seqx.Viol) {
+						var v *seqx.Viol
+						br := bub.Run(t, 0, func() {
+							c := mkCluster(l, fv)
+							from := start
+							if start == kafka.FirstOffset {
+								from = 0
+							}
+							want := expected(c, from, true)
+							var got []string
+							r := newReader(c, 1<<20, 1)
+							if err := r.SetOffset(start); err != nil {
+								v = &seqx.Viol{Sig: "reader:setoffset", Msg: err.Error()}
+								return
+							}
+							for i := 0; i <= len(want); i++ {
+								ctx, cancel := context.WithTimeout(context.Background(), 4*time.Second)
+								m, err := r.ReadMessage(ctx)
+								cancel()
+								if err != nil {
+									if !errors.Is(err, context.DeadlineExceeded) {
+										got = append(got, "error:"+hx.ErrString(err))
+									}
+									break
+								}
+								got = append(got, fmtMsg(m))
+								if i == 0 || pattern == "after-every" {
+									time.Sleep(700 * time.Millisecond)
+								}
+							}
+							r.Close()
+							v = compare("reader-slow-consumer", got, want)
+						})
+						if br.Panic != "" {
+							return "panic", &seqx.Viol{Sig: "panic", Msg: br.Panic}
+						}
+						return l.name, v
+					})
+				}
+			}
+		}
+	}
+
 	// connection-cut sweep: the connection is lost after every prefix of the first (or second) fetch response;
 	// the Reader must continue on a new connection and deliver exactly the stored records, each once
 	s.Begin("reader-connection-cut-at-every-byte")
